@@ -281,6 +281,27 @@ func c15Worlds() []c15World {
 		early("early-answer-then-undecodable", wire.ConnectUnary, "json", "", func(s *drive.ReqSpec) { s.Body.Data = []byte(`{"name":`) }),
 		early("early-answer-clean", wire.ConnectUnary, "json", "gzip", nil),
 		early("early-answer-web-corrupt-gzip", wire.GRPCWeb, "json", "gzip", flip(20)),
+		// a failure whose body is larger than the message limit (and one that merely is large)
+		func() c15Req {
+			q := mk("oversized-error-body", wire.GRPCWeb, "Unary", "json", "", nil, nil, small)
+			q.raw = func(b *world.Backend, w http.ResponseWriter, r *http.Request) {
+				_, _ = io.Copy(io.Discard, r.Body)
+				w.Header().Set("Content-Type", "application/json")
+				w.WriteHeader(503)
+				_, _ = w.Write([]byte(`{"code":"unavailable","message":"` + strings.Repeat("x", 9000) + `"}`))
+			}
+			return q
+		}(),
+		func() c15Req {
+			q := mk("large-error-body", wire.ConnectUnary, "Unary", "json", "gzip", nil, nil, big)
+			q.raw = func(b *world.Backend, w http.ResponseWriter, r *http.Request) {
+				_, _ = io.Copy(io.Discard, r.Body)
+				w.Header().Set("Content-Type", "application/json")
+				w.WriteHeader(429)
+				_, _ = w.Write([]byte(`{"code":"resource_exhausted","message":"` + strings.Repeat("y", 5000) + `"}`))
+			}
+			return q
+		}(),
 	}
 	w5.probes = []c15Req{f1, f2, f3}
 	// world 6: the same target with request compression: a GET issued toward the backend
@@ -379,6 +400,7 @@ func c15Run(w c15World, history []int, probe int) (outcome string, poolKey strin
 		be.ServeHTTP(rw, rq)
 		if cur.close {
 			_ = rq.Body.Close()
+			_ = rq.Body.Close() // (closing twice is legal; httputil.ReverseProxy over http.Transport does it)
 		}
 	})
 	tc, err := world.Build(w.cfg, handler)
